@@ -65,7 +65,8 @@ def r15(ctx):
     ET = eb["E"] if eb else None
     for s_ in walk_no_nested(fn):
         if isinstance(s_, ast.Assign) and isinstance(s_.value, ast.Constant) and s_.value.value is True and isinstance(s_.targets[0], ast.Name) \
-                and any(isinstance(a, ast.If) and "is not None" in ast.unparse(a.test) for a in ancestors_of(s_)):
+                and any(isinstance(a, ast.If) and ("is not None" in ast.unparse(a.test) or "is None" in ast.unparse(a.test)) for a in ancestors_of(s_)) \
+                and any(isinstance(a, ast.For) for a in ancestors_of(s_)):
             HV = s_.targets[0].id
     if not all((WV, DV, SV, HV, ET)):
         raise Inconclusive(f"min_weight_bipartite_matching: cannot identify the table/dtype/sentinel/flag/edge-type variables ({WV}, {DV}, {SV}, {HV}, {ET})")
@@ -163,12 +164,16 @@ def r15(ctx):
             and dotted(s.targets[0] if isinstance(s, ast.Assign) else s.target) == SV
             and not (isinstance(s.value, ast.Constant) and s.value.value is None)]
     if sent:
-        sval = sent[0].value
+        import copy as _copy
+        sval = _copy.deepcopy(sent[0].value)
+        if isinstance(sval, ast.BinOp) and isinstance(sval.left, ast.Call) and call_name(sval.left) == "max":
+            # the column-sum maximum may sit in a local of its own: resolve the direct arguments of the outer max(...)
+            sval.left.args = [resolve_local(fn, a) if isinstance(a, ast.Name) and dotted(a) != MAXV else a for a in sval.left.args]
         plus_one = isinstance(sval, ast.BinOp) and isinstance(sval.op, ast.Add) and isinstance(sval.right, ast.Constant) \
             and isinstance(sval.right.value, int) and sval.right.value >= 1 and isinstance(sval.left, ast.Call) \
             and call_name(sval.left) == "max"
         colsum = plus_one and any(isinstance(x, ast.Call) and call_name(x) == "sum" for x in ast.walk(sval.left)) \
-            and f"{WV}[" in ast.unparse(sval.left)
+            and any(isinstance(x, ast.Name) and x.id == WV for x in ast.walk(sval.left))
         # the filter `weights[r][c] < sentinel` keeps a real pair only if sentinel > that pair's weight: the sentinel must
         # dominate the running maximum by construction (a column sum alone does not when weights can be negative)
         dominates = plus_one and len(sval.left.args) >= 2 and any(dotted(a) == MAXV for a in sval.left.args)
@@ -283,6 +288,18 @@ def r15(ctx):
         why = None
         if isinstance(v, ast.Call) and ast.unparse(v).replace(" ", "") in ("np.dtype(int)", "numpy.dtype(int)", "np.dtype(np.int64)"):
             okr = "platform-wide integer fallback"
+        elif isinstance(v, ast.Call) and call_name(v) == "next" and len(v.args) == 2 and isinstance(v.args[0], ast.GeneratorExp) \
+                and ast.unparse(v.args[1]).replace(" ", "") in ("np.dtype(int)", "numpy.dtype(int)"):
+            g = v.args[0]
+            gen = g.generators[0]
+            tgt = [x.id for x in gen.target.elts] if isinstance(gen.target, ast.Tuple) and all(isinstance(x, ast.Name) for x in gen.target.elts) else []
+            conj = [ast.unparse(x) for i_ in gen.ifs for x in (i_.values if isinstance(i_, ast.BoolOp) and isinstance(i_.op, ast.And) else [i_])]
+            want = {f"{tgt[0]} <= {p[0]}", f"{tgt[1]} > {p[1]}"} if len(tgt) == 3 else None
+            if want and dotted(gen.iter) == "INTEGER_DTYPE_INTERVALS" and isinstance(g.elt, ast.Name) and g.elt.id == tgt[2] and want <= set(conj):
+                okr = "first table row passing the containment test, else the platform-wide integer fallback"
+            else:
+                okr = None
+                why = f"`{norm(r, 70)}` does not select the first table row that passes lo <= min_value and hi > max_value"
         elif isinstance(v, ast.Name) and v.id == dvar and lp_ is not None:
             inside = any(a is lp_ for a in ancestors_of(r))
             if inside:
@@ -313,7 +330,7 @@ def r15(ctx):
         else:
             ctx.violation("R15c", gd.file, "get_dtype", r, f"return {norm(v, 30) if v is not None else 'None'}",
                           why + ": a dtype too narrow for the weights makes np.array raise OverflowError or wrap the weights")
-    ctx.floor("R15c", nret, 2, "returns of get_dtype")
+    ctx.floor("R15c", nret, 1, "returns of get_dtype")
     tree = m.mods["graphtage.matching"]
     tab = next((s for s in tree.body if isinstance(s, (ast.Assign, ast.AnnAssign))
                 and dotted(s.targets[0] if isinstance(s, ast.Assign) else s.target) == "INTEGER_DTYPE_INTERVALS"), None)
